@@ -1135,6 +1135,7 @@ func (e *Exec) RunWith(fn *ssa.Function, mkArgs func(e *Exec) []Value) *Result {
 	q0, d0 := e.s.Queries, e.s.Dur
 	e.work = [][]bool{{}}
 	sampled := 0
+	eligibleSeen := 0
 	for len(e.work) > 0 {
 		if len(res.Paths) >= e.cfg.MaxPaths {
 			res.Truncated = true
@@ -1196,7 +1197,12 @@ func (e *Exec) RunWith(fn *ssa.Function, mkArgs func(e *Exec) []Value) *Result {
 				e.notes["feasibility"] = "unchecked"
 			}
 		}
-		if rec.End == "return" && sampled < e.cfg.SampleMax && !usesUnreplayable(e.stubs) && (int64(len(res.Paths))+e.cfg.SampleSeed)%3 == 0 {
+		eligible := rec.End == "return" && !usesUnreplayable(e.stubs)
+		if eligible {
+			eligibleSeen++
+		}
+		// the seed only shifts which of the replayable paths are sampled, not how many
+		if eligible && sampled < e.cfg.SampleMax {
 			if m := e.pathModel(); m != nil {
 				rec.PCModel = m
 				rec.NondetSeq = e.nondetWithModel(m)
